@@ -295,9 +295,21 @@ def check_alignment_options(ctx: Check, tree: Tree) -> None:
             continue
         n += 1
 
-        def fields_read(m: FuncInfo) -> set[str]:
-            return {x.attr for x in walk_function(m.node) if isinstance(x, ast.Attribute) and isinstance(x.value, ast.Name) and x.value.id == "self" and isinstance(x.ctx, ast.Load)
-                    and x.attr not in cls.methods}
+        def fields_read(m: FuncInfo, seen: set[str] | None = None) -> set[str]:
+            """Fields read through `self.` in the method and in the methods / properties of the class it uses."""
+            seen = seen if seen is not None else set()
+            if m.qual in seen:
+                return set()
+            seen.add(m.qual)
+            out: set[str] = set()
+            for x in walk_function(m.node):
+                if isinstance(x, ast.Attribute) and isinstance(x.value, ast.Name) and x.value.id == "self" and isinstance(x.ctx, ast.Load):
+                    helper = tree.lookup_method(cls, x.attr)
+                    if helper is not None:
+                        out |= fields_read(helper, seen)
+                    else:
+                        out.add(x.attr)
+            return out
 
         only_amplitude = fields_read(fa) - fields_read(ds)
         if only_amplitude:
